@@ -27,6 +27,8 @@ def execute(spec, ctx):
     structure = worlds.build_structure(spec)
     pattern = worlds.build_pattern(spec["pattern"])
     rng = seams.install_random(ctx, spec["scripts"][0])
+    if spec["seed"] % 2:
+        findcheck.warmup(ctx, spec, structure)
     total = 0
     for k, script in enumerate(spec["scripts"]):
         rng.reset(script)
@@ -35,6 +37,8 @@ def execute(spec, ctx):
         total += len(res[0])
         if k == 0:
             findcheck.oracle_indices_only(ctx, structure, pattern, spec, res, script)
+    if spec["seed"] % 3 == 0:
+        findcheck.reuse_phase(ctx, spec, structure, pattern, "c01")
     if seams.global_rng_touched(ctx):
         ctx.count("global_rng_touched")
     if total and len(spec["pattern"]["elements"]) >= 2:
